@@ -37,6 +37,11 @@ CLAIMS['C04'] = dict(
    text='Decides structural conditions behind encoding independence, for all paths: (P1) in the ZNG scanner a decoded value is kept only on the true arm of the exact filter and only a boolean true passes; (K1) every container kind zed.Walk descends (the search evaluator) is handled by the functions reachable from the buffer filter\'s FieldNameFinder; (W1) the type context only caches bytes it owns; (W2) none of the 26 Write(zed.Value) implementers retains its argument or anything derived from it without a copy; (W3) an operator that releases a pulled batch keeps none of its values without a copy; (B1) the pooled frame buffer is released exactly once and peeker bytes escape only through a copy. Does not decide equality of results across encodings, nor soundness of the buffer filter\'s string patterns.',
    note='Calls leaving the package do not retain their arguments (each implementer is itself an obligation); evaluator results may alias their input; strings are copies except byteconv.UnsafeString.',
    ref='DESIGN.md §2 C04')
+CLAIMS['C10'] = dict(
+   technique='borrowed-value ownership (E-own) and reader-value lifetime (use-after-next-Read) analyses on SSA, backward-slice dependence of the group key, stub detection',
+   text='Decides structural conditions behind memory-limit independence of aggregation and join, for all paths: (W1) no agg.Function Consume/ConsumeAsPartial (22 methods) nor groupby.Aggregator.Consume retains its argument, keys or anything derived without a copy; (K1) the string indexing the group table depends on both the flattened key bytes and keyTypes.Lookup(types); (W3) in join, groupby, spill, fuse, sort, merge and zio a value obtained from Read/Peek is neither used after the next Read on the same reader nor allowed to escape without a copy (loop-carried values included); (S3) spill.peeker.read copies nextRecord before advancing the file; (P1) no partial form is a panicking stub. Does not decide the aggregates\' arithmetic, partial composition, early release on sorted input or join semantics.',
+   note='zio.Reader contract (value valid until the next Read on the same reader); reader identity by receiver expression; calls leaving the package do not retain arguments.',
+   ref='DESIGN.md §2 C10')
 NA = {}
 for i in range(1, 21):
     pid = 'C%02d' % i
